@@ -23,7 +23,11 @@ type Profile struct {
 	// OnlySQL analyses the table file only.
 	OnlySQL bool
 	// Routes adds an Echo-style route file.
-	Routes   bool
+	Routes bool
+	// OneFile analyses a single file of the root package.
+	OneFile bool
+	// Module overrides the module / root import path (default example.com/vs/<name>).
+	Module   string
 	MinSub   int
 	MaxSub   int
 	MaxDecls int
@@ -259,6 +263,9 @@ func (g *gen) typeExpr(f *file, depth int, key bool) (expr string) {
 			}
 			return f.use(t.pkg) + t.name
 		case w < 12:
+			if g.prof.RandSafe && depth > 0 {
+				continue // anonymous containers of time.Time are printed as []Time by the generator (C01 territory)
+			}
 			f.useStd("time")
 			return "time.Time"
 		case w < 15 && depth < 2:
@@ -286,7 +293,8 @@ func (g *gen) typeExprNoUnion(f *file, depth int) string {
 func (g *gen) declEnum(f *file) {
 	r := g.r
 	name := g.fresh("E")
-	if r.Chance(1, 6) {
+	if r.Chance(1, 6) && !(g.prof.RandSafe && f.pkg != g.root) {
+		// (generated code of another package cannot name an unexported type)
 		name = strings.ToLower(name[:1]) + name[1:] + "x" // unexported enum type
 	}
 	under := kernel.Pick(r, []string{"int", "uint8", "int", "uint", "string", "int16"})
@@ -295,6 +303,9 @@ func (g *gen) declEnum(f *file) {
 	nUnexp := 0
 	if r.Chance(1, 4) {
 		nUnexp = r.Range(1, 2)
+		if g.prof.RandSafe {
+			nUnexp = 1 // two unexported members make the random-data output syntactically invalid (C01 territory)
+		}
 	}
 	fmt.Fprintf(&f.body, "type %s %s\n\nconst (\n", name, under)
 	style := r.Intn(3) // 0 iota, 1 explicit with gaps, 2 iota with offset
@@ -405,7 +416,7 @@ func (g *gen) declNamedContainer(f *file) {
 func (g *gen) declStruct(f *file, allowUnion bool) *named {
 	r := g.r
 	name := g.fresh("S")
-	if r.Chance(1, 8) {
+	if r.Chance(1, 8) && !(g.prof.RandSafe && f.pkg != g.root) {
 		name = "s" + name + "priv"
 	}
 	nf := r.Range(1, 6)
@@ -567,6 +578,9 @@ func (g *gen) fillFile(f *file, n int, unions bool) {
 func Generate(r *kernel.Rand, name string, prof Profile) *Program {
 	g := &gen{r: r, prof: prof}
 	mod := "example.com/vs/" + name
+	if prof.Module != "" {
+		mod = prof.Module
+	}
 	g.prog = &Program{Name: name, Module: mod, Files: map[string]string{}}
 	g.prog.Files["go.mod"] = "module " + mod + "\n\ngo 1.23\n"
 	g.wideBasics = r.Chance(1, 3)
@@ -602,7 +616,7 @@ func Generate(r *kernel.Rand, name string, prof Profile) *Program {
 	g.fillFile(helper, r.Range(1, 4), true)
 	files = append(files, helper)
 	nAnalysed := 1
-	if r.Chance(1, 3) {
+	if r.Chance(1, 3) && !prof.OneFile {
 		nAnalysed = 2
 	}
 	for i := 0; i < nAnalysed; i++ {
